@@ -15,7 +15,7 @@
 //            (the old one destroyed), a = it is move-ASSIGNED into another, already used parser object.  The usage text
 //            must not depend on any of them.  x = a failing parse() with usage() called INSIDE the exception handler and again
 //            after it (both texts must agree), y = greedy_postionals().
-//   pos may carry a fourth part ":<style>" (letters D P G C T B): how the same declaration is written down, see run_usage
+//   pos may carry a fourth part ":<style>" (letters D P G C T B X): how the same declaration is written down, see run_usage
 //   a toggle default i<k> goes through default_value(int) instead of default_value(bool); an opt of kind k (K) applies its
 //   setters through the reference KEPT from the first request (no new request)
 //   groups : an entry "name:descr:L" is a group created LATE (together with the late options)
@@ -162,6 +162,8 @@ static std::string run_usage(const std::vector<std::string>& w)
         //   G fetch a named group again by name (with another description) for every declaration instead of keeping the reference
         //   C apply the setters as one fluent chain on what each setter returns
         //   T set metavar and default twice (a longer temporary value first), env and short name twice with the same value
+        //   X after every declaration make setter calls that must be rejected (metavar(""), short_name("")/("ab")/(another letter),
+        //     env(another name)) and ignore the parser_error
         //   B afterwards call the public pieces directly through the kept references (base::format, format_name, format_synopsis,
         //     format_value, format_default, group::usage): every option block and every group section must occur in the text
         auto has = [&](char ch) { return style.find(ch) != std::string::npos; };
@@ -297,6 +299,23 @@ static std::string run_usage(const std::vector<std::string>& w)
                 if (chain) cur = &r1;
             }
         };
+        // style X: setter calls that the library REJECTS (parser_error), made on the declared object and ignored by the caller.
+        // A rejected call must leave no trace in the usage text; a call that is not rejected is reported
+        std::string not_rejected;
+        auto rejected_attempts = [&](auto* o) {
+            auto attempt = [&](const char* what, auto&& call) {
+                try { call(); if (not_rejected.empty()) not_rejected = what; }
+                catch (const no::parser_error&) {}
+            };
+            attempt("metavar-empty", [&] { o->metavar(""); });
+            attempt("metavar-empty-from-temporary", [&] { o->metavar(std::string()); });
+            attempt("short_name-empty", [&] { o->short_name(""); });
+            attempt("short_name-two-bytes", [&] { o->short_name("ab"); });
+            if (o->has_short_name())
+                attempt("short_name-redefined", [&] { o->short_name(o->short_name() == "q" ? "r" : "q"); });
+            if (o->has_env())
+                attempt("env-redefined", [&] { o->env(o->env() + "_OTHER"); });
+        };
         auto declare = [&](bool late) {
             for (std::size_t i = 8; i < w.size(); i++)
             {
@@ -342,6 +361,7 @@ static std::string run_usage(const std::vector<std::string>& w)
                     }
                     if (flag) { auto& r1 = cur->optional(); if (chain) cur = &r1; }
                     if (cur != object) { bad = true; return; }
+                    if (has('X')) rejected_attempts(object);
                     break;
                 }
                 case 'm':
@@ -367,6 +387,7 @@ static std::string run_usage(const std::vector<std::string>& w)
                     }
                     if (flag) { auto& r1 = cur->optional(); if (chain) cur = &r1; }
                     if (cur != object) { bad = true; return; }
+                    if (has('X')) rejected_attempts(object);
                     break;
                 }
                 case 't':
@@ -399,6 +420,7 @@ static std::string run_usage(const std::vector<std::string>& w)
                     }
                     if (flag) { auto& r1 = cur->allow_reverse(); if (chain) cur = &r1; }
                     if (cur != object) { bad = true; return; }   // a setter returned something else than its object
+                    if (has('X')) rejected_attempts(object);
                     if (!again && rank >= 0) longs.emplace_back(rank, object);
                     break;
                 }
@@ -504,6 +526,7 @@ static std::string run_usage(const std::vector<std::string>& w)
             a = fresh.str();
         }
         if (badfmt || bad) return "BADCASE";
+        if (!not_rejected.empty()) return "ATTEMPT-NOT-REJECTED " + not_rejected;
         if (handler_differs) return "USAGE-IN-HANDLER-DIFFERS";
         if (has('B'))
         {
